@@ -142,7 +142,7 @@ class _Meta(Contract):
 @register
 class GetCanonicalPool(_Meta):
     path, qualname = IDX, 'IndexMetadata.get_canonical_pool'
-    props = ('C12', 'C10')          # C10: the pool served from an index directory is the one digested with exactly the run's parameters
+    props = ('C12', 'C10', 'C06')   # C06: index directory vs raw files give the same canonical pool; C10: the pool served from an index directory is the one digested with exactly the run's parameters
 
     def setup(self, I):
         st = types.SimpleNamespace()
@@ -188,6 +188,7 @@ class GetCanonicalPool(_Meta):
 
 @register
 class RegisterCanonicalPool(_Meta):
+    props = ('C12', 'C06')          # C06: the pool read back from an index directory is the one saved for these parameters
     path, qualname = IDX, 'IndexMetadata.register_canonical_pool'
     assumptions = ("assumed: f'canonical_peptides_{index:03}.pkl' is injective in index (':03' pads, never truncates)",)
 
@@ -303,6 +304,7 @@ class _Dir(_Meta):
 
 @register
 class SaveCanonicalPeptides(_Dir):
+    props = ('C12', 'C06')          # C06: the pool read back from an index directory is the one saved for these parameters
     path, qualname = IDX, 'IndexDir.save_canonical_peptides'
 
     def setup(self, I):
@@ -344,6 +346,7 @@ class SaveCanonicalPeptides(_Dir):
 
 @register
 class LoadCanonicalPeptides(_Dir):
+    props = ('C12', 'C06')          # C06: the pool read back from an index directory is the one saved for these parameters
     path, qualname = IDX, 'IndexDir.load_canonical_peptides'
 
     def setup(self, I):
